@@ -27,3 +27,23 @@ for q in quals:
         kinds.setdefault(k, []).append((w, tx))
     for k, v in kinds.items():
         print("  note", k, len(v), [x[1] for x in v][:12])
+    if '-d' in sys.argv:
+        pat = sys.argv[sys.argv.index('-d')+1]
+        from pyvc.solve import to_smt2
+        for ob in obs:
+            if pat in ob.name:
+                s = z3.Solver(); s.set('timeout', 30000); s.set('random_seed', 0); s.from_string(to_smt2(ob, cx.facts, {}))
+                print(ob.name, s.check())
+                if s.check() != z3.sat: continue
+                m = s.model()
+                def atoms(e, out):
+                    if z3.is_app(e) and e.decl().kind() in (z3.Z3_OP_AND, z3.Z3_OP_OR, z3.Z3_OP_NOT, z3.Z3_OP_IMPLIES, z3.Z3_OP_ITE) or (z3.is_app(e) and z3.is_bool(e) and e.decl().kind()==z3.Z3_OP_EQ and z3.is_bool(e.arg(0))):
+                        for c in e.children(): atoms(c, out)
+                    else:
+                        out.append(e)
+                out=[]; atoms(ob.goal, out)
+                for a in out:
+                    print("   GOAL-ATOM", str(a)[:300].replace("\n"," "), "=", m.eval(a, model_completion=True))
+                    if z3.is_app(a):
+                        for ch in a.children():
+                            print("        ", str(ch)[:200].replace("\n"," "), "=", m.eval(ch, model_completion=True))
